@@ -1,41 +1,49 @@
 #!/usr/bin/env python3
 """Re-confirms every seeded change under /verif/seeded against the current /repo and the current checks and
-rewrites seeded/README.md (which check catches which change).   tools/run_seeds.py [--tier quick] [seed-id ...]"""
+rewrites seeded/README.md (which check catches which change).   tools/run_seeds.py [--tier quick] [--jobs N] [seed-id ...]"""
 import sys, os, json, subprocess
+from concurrent.futures import ThreadPoolExecutor
 HERE = os.path.dirname(os.path.dirname(os.path.abspath(__file__)))
 tier = 'quick'
+jobs = 1
 only = []
 a = sys.argv[1:]
 i = 0
 while i < len(a):
     if a[i] == '--tier': tier = a[i + 1]; i += 2
+    elif a[i] == '--jobs': jobs = int(a[i + 1]); i += 2
     else: only.append(a[i]); i += 1
 root = os.path.join(HERE, 'seeded')
-rows = []
-for sid in sorted(os.listdir(root)):
+def one(sid):
     d = os.path.join(root, sid)
-    if not os.path.isdir(d) or not os.path.exists(os.path.join(d, 'meta.json')):
-        continue
     meta = json.load(open(os.path.join(d, 'meta.json')))
     if only and sid not in only:
-        rows.append((sid, meta)); continue
+        return (sid, meta)
     pid = meta['breaks_property']
     also = [c for c in meta.get('checks', {}) if c != pid]
     cmd = [os.path.join(HERE, 'tools', 'verify_seed.py'), d, sid, pid, '--tier', tier, '--keep']
     for c in also:
         cmd += ['--also', c]
-    p = subprocess.run(cmd, stdout=subprocess.PIPE, stderr=subprocess.STDOUT, text=True)
+    env = dict(os.environ)
+    if jobs > 1:
+        env['VERIF_JOBS'] = str(max(4, 16 // jobs))
+    p = subprocess.run(cmd, stdout=subprocess.PIPE, stderr=subprocess.STDOUT, text=True, env=env)
     try:
         res = json.loads(p.stdout[p.stdout.index('{'):])
     except Exception:
-        print(sid, 'UNPARSEABLE', p.stdout[-400:]); continue
-    print(sid, 'ok=%s' % res.get('ok'), res.get('error', '')[:200], {k: v['verdict'] for k, v in res.get('checks', {}).items()})
+        print(sid, 'UNPARSEABLE', p.stdout[-400:], flush=True); return (sid, meta)
+    print(sid, 'ok=%s' % res.get('ok'), res.get('error', '')[:200], {k: v['verdict'] for k, v in res.get('checks', {}).items()}, flush=True)
     meta2 = json.load(open(os.path.join(d, 'meta.json')))
     for k in ('needs_to_manifest', 'summary', 'history'):
-        if k in meta and k not in meta2:
+        if k in meta and not meta2.get(k):
             meta2[k] = meta[k]
     json.dump(meta2, open(os.path.join(d, 'meta.json'), 'w'), indent=1)
-    rows.append((sid, meta2))
+    return (sid, meta2)
+
+
+sids = [sid for sid in sorted(os.listdir(root)) if os.path.isdir(os.path.join(root, sid)) and os.path.exists(os.path.join(root, sid, 'meta.json'))]
+with ThreadPoolExecutor(max_workers=jobs) as ex:
+    rows = list(ex.map(one, sids))
 with open(os.path.join(root, 'README.md'), 'w') as f:
     f.write('# Seeded property-breaking changes\n\nEach directory holds `patch.diff` (applies to /repo HEAD with `git apply` / `patch -p1`), `demo.cpp` (exit 0 on the unchanged tree, non-zero with the change), the author\'s `notes.md` and `meta.json` (what was confirmed and which checks were run). All were written by independent sub-agents that saw only the property text; every one was re-confirmed here on a scratch copy (suite passes with the change, demo passes without it and fails with it). None is ever applied to /repo.\n\n| seed | written against | needs to manifest | detected by (tier %s) | missed by |\n|---|---|---|---|---|\n' % tier)
     for sid, m in rows:
